@@ -78,9 +78,9 @@ def _invalid(kind):
                          np.array([1.0, 2.0]), np.float64('nan'), np.array([3.0]), 1 + 2j]
     if kind == 'posangle':
         return common + [3.0, 0 * u.deg, -1 * u.arcsec, 3 * u.m, 3 * u.pix, np.array([1., 2.]) * u.deg, float('nan') * u.deg,
-                         float('inf') * u.deg, u.Quantity(3.0)]
+                         float('inf') * u.deg, u.Quantity(3.0), 3 * u.sr, 3 * u.deg ** 2, 3 * u.arcsec ** 2, 3 * u.deg / u.s, 3 * u.hourangle * u.m]
     if kind == 'angle':
-        return common + [3.0, 3 * u.m, 3 * u.pix, np.array([1., 2.]) * u.deg, u.Quantity(3.0)]
+        return common + [3.0, 3 * u.m, 3 * u.pix, np.array([1., 2.]) * u.deg, u.Quantity(3.0), 3 * u.sr, 3 * u.deg ** 2, 3 * u.rad / u.s]
     if kind == 'pix':
         return common + [PixCoord([1., 2.], [3., 4.]), _sky(), 3.0, (1.0, 2.0), PixCoord(np.zeros((2, 2)), np.zeros((2, 2)))]
     if kind == 'pix1d':
@@ -185,13 +185,28 @@ def h_symbolic_sizes(name, m):
             m.require(f'{name}.{p} unchanged after the rejected assignment', getattr(reg, p) is old)
 
 
-def h_annulus(name, m):
+def h_annulus(name, m, mixed=False):
     """annulus: outer sizes must exceed inner ones, at construction and after every assignment"""
     import regions as R
     from regions import PixCoord
     a, b = m.pos('inner'), m.pos('outer')
     sky = name.startswith('sky')
     q = (lambda x: u.Quantity(x, u.arcsec, dtype=object if m.sym else float)) if sky else (lambda x: x)
+    if sky and mixed:
+        # inner sizes in arcmin, outer sizes in arcsec: the order is that of the angles, not of the bare numbers
+        qi = lambda x: u.Quantity(x, u.arcmin, dtype=object if m.sym else float)
+        c0 = _sky()
+        if 'circle' in name:
+            mk2 = lambda i, o: R.CircleAnnulusSkyRegion(c0, qi(i), q(o))
+        else:
+            cls2 = {'sky-annulus-ellipse': R.EllipseAnnulusSkyRegion, 'sky-annulus-rectangle': R.RectangleAnnulusSkyRegion}[name]
+            mk2 = lambda i, o: cls2(c0, qi(i), q(o), qi(0.01), q(2.0))
+        try:
+            mk2(a, b)
+            m.require('mixed units: annulus accepted only if inner < outer as angles', 60 * a < b)
+        except ValueError:
+            m.require('mixed units: annulus rejected only if inner >= outer as angles', 60 * a >= b)
+        return
     c = _sky() if sky else PixCoord(1.0, 2.0)
     if 'circle' in name:
         cls = R.CircleAnnulusSkyRegion if sky else R.CircleAnnulusPixelRegion
@@ -337,6 +352,8 @@ def harnesses(tier):
     for name in ('annulus-circle', 'annulus-ellipse', 'annulus-rectangle', 'sky-annulus-circle', 'sky-annulus-ellipse',
                  'sky-annulus-rectangle'):
         hs.append((f'annulus-order/{name}', P(h_annulus, name)))
+        if name.startswith('sky'):
+            hs.append((f'annulus-order/{name}/mixed-units', P(h_annulus, name, mixed=True)))
     hs.append(('meta/RegionMeta', P(h_meta, 'RegionMeta')))
     hs.append(('meta/RegionVisual', P(h_meta, 'RegionVisual')))
     hs.append(('regions-list', h_regions_list))
@@ -354,7 +371,7 @@ META = {
                           'regions.core.regions.Regions.__init__/append/extend/insert', 'RegionBoundingBox.__init__', 'RegionMask.__init__'],
     'bounds': {'quick': {'sizes': 'ALL finite reals symbolically (accept iff > 0, read-back identity) + the non-finite doubles nan, +inf, -inf enumerated',
                          'wrong-kind catalogue': '12-18 values per parameter kind x {constructor, assignment} x every parameter of 18 classes',
-                         'annulus order': 'symbolic inner/outer (all positive reals), construction and single assignment',
+                         'annulus order': 'symbolic inner/outer (all positive reals), construction and single assignment; sky annuli also with inner in arcmin and outer in arcsec',
                          'metadata keys': 'every documented key + 16 invalid keys x 10 entry points'}},
     'outside_claim': ['interleavings of valid and invalid assignments longer than one rejected + one accepted step (each step is '
                       'checked from an arbitrary valid state of the same class: the descriptors are stateless)',
